@@ -247,15 +247,17 @@ CLAIMED["C28"] = (
     "contract-based deductive verification (loop invariants over sort postconditions, call-site obligations, ghost last-key + SMT)", "6/C28")
 
 CLAIMED["C16"] = (
-    "Proof of the value-independence half of the statement for the list operations that build new lists: pyList + list, sorted() and reversed() "
-    "never write into a backing array reachable from their operands/arguments (frame obligations with slice-origin tracking through interface "
-    "boxes and, for +, an append-into-spare-capacity check), so the results are fresh values and the inputs keep their contents — this exposed "
-    "and pins the repairs 4bfb74e (x + [a] and x + [b] aliased) and c1dc882 (sorted/reversed reordered their argument). Kernel-only and narrow: "
-    "agreement of every evaluated value with CPython is a relation to an external interpreter and is not a contract of any function here; the "
-    "parser, comprehensions, string methods and formatting are not under contract.",
-    COMMON_NOTE + "sort.Slice / slices.Reverse are assumed in-place permutations; the key function and comparison operators are arbitrary code "
-    "(modifies heap).",
-    "contract-based deductive verification (frame obligations over slice origins + SMT)", "6/C16")
+    "Proof of the kernels of the interpreter where agreement with Python can be stated per function: operator precedence has Python's order "
+    "(exact table) and interpretOps gives an operator only the RUN of strictly tighter operators as its right operand (left associativity; "
+    "exposed 10 - 2 * 3 - 1 == 5, repaired); integer % has the sign of the divisor (exposed -7 % 3 == -1, repaired); and value independence: "
+    "list + list, sorted(), reversed() and list slices return fresh lists and never write into their operands (frame obligations with "
+    "slice-origin tracking through interface boxes, append-into-spare-capacity check, fresh(result)), and a constant list literal is handed "
+    "out as a copy, not as the object cached in the AST (five aliasing defects exposed and repaired). Kernel-only and narrow: agreement of "
+    "every evaluated value with CPython is a relation to an external interpreter; floor division (float based), comprehensions, string "
+    "methods, formatting, range and the parser's grammar are not under contract.",
+    COMMON_NOTE + "sort.Slice / slices.Reverse are assumed in-place permutations; slices.Clone/Clip yield full, unshared slices; the key function "
+    "and comparison operators are arbitrary code (modifies heap).",
+    "contract-based deductive verification (exact postconditions, frame obligations over slice origins, call-site obligations on recursion + SMT)", "6/C16")
 
 CLAIMED["C17"] = (
     "Proof that freezing is deep and that frozen containers cannot be written: pyList.Freeze returns a pyFrozenList whose items are, position by "
